@@ -1,385 +1,348 @@
 """
 C17 -- CIF and PDB ingestion reproduces what the file states.
 
-Mapping half, decided by a provenance data-flow over the readers: every field
-handed to add_atom / stored in the atom list is traced back to the CIF key or
-the PDB columns it was read from, through remove_esd, .upper(), the B->U
-factor 1/(8 pi^2) and the anisotropic label index, for every configuration of
-the ADP type (None, Biso, Bani, Uiso, Uani) and of the multiplicity keys
-(present, old spelling, absent).  The oracle is the format specification (IUCr
-core CIF dictionary names; wwPDB v3.3 column table), not a copy of the code.
+The readers are *evaluated* (E7) on model files whose numbers are symbolic: a CIF value is the text of a numeric atom,
+optionally followed by its standard uncertainty in parentheses; a PDB record is a line of literal text and fixed-width
+numeric *fields* laid out by the wwPDB v3.3 column table.  What reaches the atom list is compared, as normal forms, with
+what the format specification says each field means (IUCr core CIF dictionary names; wwPDB columns; B -> U by 1/(8 pi^2);
+anisotropic order 11,22,33,23,13,12 and the label index; SCALEn rows).  The oracle is the specification, not the code, and
+the readers may be written in any way E7 can evaluate.
 """
 import ast
+from fractions import Fraction
 
 from xfabsa import core, numeric as N
 from xfabsa.core import AnalysisError
 from xfabsa.poly import Rat
-from xfabsa.symeval import Evaluator, scalar
+from xfabsa.symeval import Arr, Obj, Opaque, RaiseReached, scalar, materialise, sym_array
+from xfabsa.objeval import ObjEvaluator, FileSystem, PyRaise, Sym, SStr, Text, Field, num_atom, okey, exc_name_of
 
+NODE = ast.Constant(value=0)
+NODE.lineno = 0
 CELL_KEYS = ["_cell_length_a", "_cell_length_b", "_cell_length_c",
              "_cell_angle_alpha", "_cell_angle_beta", "_cell_angle_gamma"]
 ANISO_ORDER = ["11", "22", "33", "23", "13", "12"]
-# wwPDB v3.3 columns (1-based, inclusive) -> python slices
-PDB_CRYST1 = {"a": (7, 15), "b": (16, 24), "c": (25, 33), "alp": (34, 40), "bet": (41, 47), "gam": (48, 54), "sg": (56, 66)}
-PDB_ATOM = {"label": (13, 16), "x": (31, 38), "y": (39, 46), "z": (47, 54), "occ": (55, 60), "adp": (61, 66), "atomtype": (77, 78)}
+EIGHT_PI2 = 8 * N.PI * N.PI
 
 
-def sl(cols):
-    return "%d:%d" % (cols[0] - 1, cols[1])
+def txt(atom, esd=None):
+    """the CIF text of a number, e.g. 0.1234(5)"""
+    num_atom(atom, "float")
+    return SStr([Text(atom)] + (["(", esd, ")"] if esd else [])).simplify()
 
 
-class Prov:
-    """provenance evaluator: names -> canonical provenance strings"""
+def val(atom):
+    return Rat.atom(atom)
 
-    def __init__(self, mod, scenario, opaque_names=()):
-        self.opaque_names = set(opaque_names)
+
+class Reader:
+    def __init__(self, mod, multiplicity_log):
         self.mod = mod
-        self.sc = scenario          # {'adp_type': literal|'<absent>', 'multi': 'new'|'old'|'none'}
-        self.calls = []             # (callee, kwargs dict)
-        self.stores = []            # (target provenance, value provenance)
+        self.mlog = multiplicity_log
+        self.cif_files = {}
+        self.ev = ObjEvaluator(mod, inline=set(), call_policy=self.cpol, import_policy=self.ipol, max_depth=10)
+        self.fs = FileSystem(self.ev)
+        self.obj = self.ev.instantiate("build_atomlist", [], {}, NODE)
 
-    def is_8pi2(self, node):
+    def cpol(self, name, args, kwargs, node):
+        if name == "multiplicity":
+            self.mlog.append((args, kwargs))
+            num_atom("mult#%d" % len(self.mlog), "int")
+            return Rat.atom("mult#%d" % len(self.mlog))
+        return NotImplemented
+
+    def ipol(self, name, args, kwargs, node):
+        if name == "CifFile.ReadCif":
+            f = args[0] if args else kwargs.get("filename")
+            if f not in self.cif_files:
+                raise PyRaise("FileNotFoundError", node, str(f))
+            return self.cif_files[f]
+        return NotImplemented
+
+    def call(self, meth, *args, **kw):
+        fn = self.ev.find_method(self.obj, meth)
+        if fn is None:
+            raise AnalysisError("anchor vanished: build_atomlist.%s" % meth)
+        return self.ev.call_bound(fn, self.obj, list(args), dict(kw), NODE)
+
+    def outcome(self, meth, *args, **kw):
         try:
-            v = scalar(Evaluator(self.mod, inline=set()).eval(node, {}))
-            return v.equals(8 * N.PI * N.PI)
-        except AnalysisError:
-            return False
+            return "ok", self.call(meth, *args, **kw)
+        except (PyRaise, RaiseReached) as e:
+            return "raise", exc_name_of(e)
 
-    def p(self, node, env):
-        if isinstance(node, ast.Name):
-            return env.get(node.id, node.id)
-        if isinstance(node, ast.Constant):
-            return repr(node.value)
-        if isinstance(node, ast.Attribute):
-            return "%s.%s" % (self.p(node.value, env), node.attr)
-        if isinstance(node, ast.Subscript):
-            if isinstance(node.slice, ast.Slice):
-                lo = self.p(node.slice.lower, env) if node.slice.lower else ""
-                hi = self.p(node.slice.upper, env) if node.slice.upper else ""
-                return "%s[%s:%s]" % (self.p(node.value, env), lo, hi)
-            return "%s[%s]" % (self.p(node.value, env), self.p(node.slice, env))
-        if isinstance(node, ast.List):
-            return "[" + ", ".join(self.p(e, env) for e in node.elts) + "]"
-        if isinstance(node, ast.ListComp) and len(node.generators) == 1 and not node.generators[0].ifs \
-                and isinstance(node.generators[0].target, ast.Name):
-            g = node.generators[0]
-            try:
-                seq = ast.literal_eval(g.iter)
-            except Exception:
-                seq = None
-            if isinstance(seq, (list, tuple)):
-                items = []
-                for v in seq:
-                    e2 = dict(env)
-                    e2[g.target.id] = repr(v)
-                    items.append(self.p(node.elt, e2))
-                return "[" + ", ".join(items) + "]"
-        if isinstance(node, ast.Tuple):
-            return "(" + ", ".join(self.p(e, env) for e in node.elts) + ")"
-        if isinstance(node, ast.UnaryOp) and isinstance(node.op, ast.USub):
-            return "-" + self.p(node.operand, env)
-        if isinstance(node, ast.BinOp):
-            if isinstance(node.op, ast.Div) and self.is_8pi2(node.right):
-                return "B2U(%s)" % self.p(node.left, env)
-            if isinstance(node.op, ast.Add):
-                a_, b_ = self.p(node.left, env), self.p(node.right, env)
-                if len(a_) >= 2 and len(b_) >= 2 and a_[0] == a_[-1] == "'" and b_[0] == b_[-1] == "'":
-                    return repr(ast.literal_eval(a_) + ast.literal_eval(b_))
-            if isinstance(node.op, ast.Mod):
-                a_, b_ = self.p(node.left, env), self.p(node.right, env)
-                try:
-                    return repr(ast.literal_eval(a_) % ast.literal_eval(b_))
-                except Exception:
-                    pass
-            op = {ast.Add: "+", ast.Sub: "-", ast.Mult: "*", ast.Div: "/"}.get(type(node.op), "?")
-            return "(%s %s %s)" % (self.p(node.left, env), op, self.p(node.right, env))
-        if isinstance(node, ast.Call):
-            f = node.func
-            args = [self.p(a, env) for a in node.args]
-            if isinstance(f, ast.Attribute):
-                if f.attr == "remove_esd" and isinstance(f.value, ast.Name) and f.value.id == "self":
-                    return "esd(%s)" % ", ".join(args)
-                if f.attr in ("upper", "lower", "split") and not args:
-                    return "%s(%s)" % (f.attr, self.p(f.value, env))
-                if f.attr == "index":
-                    return "index(%s, %s)" % (self.p(f.value, env), ", ".join(args))
-                return "%s(%s)" % (self.p(f, env), ", ".join(args))
-            name = self.p(f, env)
-            kw = ", ".join("%s=%s" % (k.arg, self.p(k.value, env)) for k in node.keywords)
-            return "%s(%s)" % (name, ", ".join([a for a in args] + ([kw] if kw else [])))
-        if isinstance(node, ast.Compare):
-            return "%s %s %s" % (self.p(node.left, env), type(node.ops[0]).__name__, self.p(node.comparators[0], env))
-        if isinstance(node, ast.BoolOp):
-            return (" %s " % type(node.op).__name__).join(self.p(v, env) for v in node.values)
-        raise AnalysisError("provenance: unsupported expression `%s`" % core.unparse(node)[:60])
-
-    # --- statements
-    def decide(self, test, env):
-        """fold the tests that depend on the scenario; None = not a scenario test"""
-        txt = core.unparse(test).replace(" ", "").replace('"', "'")
-        if txt.startswith("adp_type=="):
-            lit = ast.literal_eval(test.comparators[0])
-            return self.sc["adp_type"] == lit
-        if txt == "'_atom_site_symmetry_multiplicity'incifblk":
-            return self.sc["multi"] == "new"
-        if txt == "'_atom_site_symetry_multiplicity'incifblk":
-            return self.sc["multi"] == "old"
-        return None
-
-    def block(self, stmts, env):
-        for st in stmts:
-            self.stmt(st, env)
-
-    def stmt(self, st, env):
-        if isinstance(st, ast.Assign) and len(st.targets) == 1:
-            t = st.targets[0]
-            v = self.p(st.value, env)
-            if isinstance(t, ast.Name):
-                env[t.id] = t.id if t.id in self.opaque_names else v
-            else:
-                self.stores.append((self.p(t, env), v))
-            return
-        if isinstance(st, ast.Try):
-            e1 = dict(env)
-            n1 = len(self.stores)
-            self.block(st.body, e1)
-            body_stores = self.stores[n1:]
-            del self.stores[n1:]
-            alts = []
-            for h in st.handlers:
-                e2 = dict(env)
-                n2 = len(self.stores)
-                self.block(h.body, e2)
-                alts.append((e2, self.stores[n2:]))
-                del self.stores[n2:]
-            for k in set(e1) | set(k2 for e2, _s in alts for k2 in e2):
-                vals = [e1.get(k, env.get(k))] + [e2.get(k, env.get(k)) for e2, _s in alts]
-                if k in self.opaque_names:
-                    env[k] = k
-                elif len(set(vals)) > 1:
-                    env[k] = "try(%s)" % " | ".join(str(v) for v in vals)
-                else:
-                    env[k] = vals[0]
-            # stores: pair them positionally
-            for idx, (tg, v) in enumerate(body_stores):
-                alt_vals = [s_[idx][1] if idx < len(s_) and s_[idx][0] == tg else "?" for _e, s_ in alts]
-                self.stores.append((tg, "try(%s)" % " | ".join([v] + alt_vals)))
-            return
-        if isinstance(st, ast.If):
-            d = self.decide(st.test, env)
-            if d is True:
-                self.block(st.body, env)
-                return
-            if d is False:
-                self.block(st.orelse, env)
-                return
-            # not a scenario test: both arms, recorded under the test
-            e1, e2 = dict(env), dict(env)
-            n0 = len(self.stores)
-            self.block(st.body, e1)
-            s1 = self.stores[n0:]
-            del self.stores[n0:]
-            self.block(st.orelse, e2)
-            s2 = self.stores[n0:]
-            del self.stores[n0:]
-            cond = self.p(st.test, env)
-            for k in set(e1) | set(e2):
-                a, b = e1.get(k, env.get(k)), e2.get(k, env.get(k))
-                env[k] = a if a == b else "if(%s ? %s : %s)" % (cond, a, b)
-            self.stores += [("if[%s]%s" % (cond, t), v) for t, v in s1] + [("else[%s]%s" % (cond, t), v) for t, v in s2]
-            return
-        if isinstance(st, ast.For):
-            if isinstance(st.target, ast.Name):
-                env[st.target.id] = st.target.id
-            self.block(st.body, env)
-            return
-        if isinstance(st, ast.Expr) and isinstance(st.value, ast.Call):
-            c = st.value
-            f = c.func
-            if isinstance(f, ast.Attribute) and isinstance(f.value, ast.Name) and f.value.id == "logger":
-                return
-            name = core.unparse(f)
-            self.calls.append((name, {k.arg: self.p(k.value, env) for k in c.keywords}, [self.p(a, env) for a in c.args]))
-            return
-        if isinstance(st, (ast.Import, ast.ImportFrom, ast.Pass, ast.Raise)):
-            return
-        if isinstance(st, ast.Expr) and isinstance(st.value, ast.Constant):
-            return
-        if isinstance(st, ast.AugAssign):
-            return
-        raise AnalysisError("provenance: unsupported statement `%s`" % core.unparse(st)[:60])
+    @property
+    def atomlist(self):
+        return self.obj.attrs["atomlist"]
 
 
-def cif(key, idx="i"):
-    return "cifblk['%s'][%s]" % (key, idx)
+def same(a, b):
+    if isinstance(a, Arr):
+        a = list(a.flat())
+    if isinstance(b, Arr):
+        b = list(b.flat())
+    if isinstance(a, (list, tuple)) and isinstance(b, (list, tuple)):
+        return len(a) == len(b) and all(same(x, y) for x, y in zip(a, b))
+    if isinstance(a, Rat) and isinstance(b, Rat):
+        return a.equals(b)
+    return okey(a) == okey(b)
+
+
+def cif_block(adp_types, multi, with_type_loop=True, with_occ=True):
+    """a two-site block; site k has the given ADP type; the anisotropic loop lists the sites in REVERSE order"""
+    labels = ["Fe1", "O2"]
+    blk = {}
+    for k_, a_ in zip(CELL_KEYS, ("ca", "cb", "cc", "cal", "cbe", "cga")):
+        blk[k_] = txt(a_, "3")
+    blk["_symmetry_space_group_name_H-M"] = "P 21/c"
+    blk["_atom_site_label"] = list(labels)
+    blk["_atom_site_type_symbol"] = ["Fe", "o"]
+    for ax in "xyz":
+        blk["_atom_site_fract_%s" % ax] = [txt("%s0" % ax, "2"), txt("%s1" % ax)]
+    if any(t is not Ellipsis for t in adp_types):
+        blk["_atom_site_adp_type"] = [t for t in adp_types]
+    if with_occ:
+        blk["_atom_site_occupancy"] = [txt("occ0"), txt("occ1", "1")]
+    blk["_atom_site_U_iso_or_equiv"] = [txt("uiso0", "4"), txt("uiso1")]
+    blk["_atom_site_B_iso_or_equiv"] = [txt("biso0"), txt("biso1", "4")]
+    blk["_atom_site_aniso_label"] = [labels[1], labels[0]]
+    for o in ANISO_ORDER:
+        blk["_atom_site_aniso_U_%s" % o] = [txt("U%s_1" % o, "5"), txt("U%s_0" % o)]
+        blk["_atom_site_aniso_B_%s" % o] = [txt("B%s_1" % o), txt("B%s_0" % o, "5")]
+    if multi == "new":
+        blk["_atom_site_symmetry_multiplicity"] = [txt("m0"), txt("m1")]
+    elif multi == "old":
+        blk["_atom_site_symetry_multiplicity"] = [txt("m0"), txt("m1")]
+    if with_type_loop:
+        blk["_atom_type_symbol"] = ["o", "Fe"]
+        blk["_atom_type_scat_dispersion_real"] = [txt("fpO", "1"), txt("fpFe")]
+        blk["_atom_type_scat_dispersion_imag"] = [txt("fppO"), txt("fppFe", "2")]
+    return blk
+
+
+def expected_adp(t, k):
+    if t is None:
+        return Rat.const(0), None
+    if t == "Uiso":
+        return val("uiso%d" % k), "Uiso"
+    if t == "Biso":
+        return val("biso%d" % k) / EIGHT_PI2, "Uiso"
+    if t == "Uani":
+        return [val("U%s_%d" % (o, k)) for o in ANISO_ORDER], "Uani"
+    if t == "Bani":
+        return [val("B%s_%d" % (o, k)) / EIGHT_PI2 for o in ANISO_ORDER], "Uani"
+    raise AnalysisError("unknown adp type")
+
+
+def pdb_lines():
+    """CRYST1, SCALE1-3, ATOM and HETATM records by the wwPDB v3.3 column table, numbers as fixed-width fields"""
+    def f(atom, width):
+        num_atom(atom, "float")
+        return Field(atom, width)
+    cryst = SStr(["CRYST1", f("pa", 9), f("pb", 9), f("pc", 9), f("pal", 7), f("pbe", 7), f("pga", 7), " ", "P 1 21/c 1 ", "   4", " " * 10, "\n"])
+    scale = [SStr(["SCALE%d" % (r + 1), "    ", " ", f("s%d0" % r, 9), " ", f("s%d1" % r, 9), " ", f("s%d2" % r, 9), "     ", " ", f("u%d" % r, 9), " " * 25, "\n"])
+             for r in range(3)]
+
+    def atom(rec, k, name, elem):
+        return SStr([rec.ljust(6), "%5d" % (k + 1), " ", name, " ", "ALA", " ", "A", "%4d" % (k + 1), " ", "   ",
+                     f("X%d" % k, 8), f("Y%d" % k, 8), f("Z%d" % k, 8), f("OCC%d" % k, 6), f("BF%d" % k, 6), " " * 10, elem, "  ", "\n"])
+    return ["HEADER    TEST\n", cryst] + scale + [atom("ATOM", 0, " CA ", " c"), "REMARK ATOM in the middle of a line\n", atom("HETATM", 1, "FE  ", "Fe"),
+                                                    "END\n"]
 
 
 def run(ctx):
-    ctx.rule("cif", "every CIF field reaches add_atom / the cell from the key the core dictionary prescribes (all ADP / multiplicity configurations)")
-    ctx.rule("esd", "remove_esd: float(a) when there is no '(', else float(a[:a.find('(')])")
-    ctx.rule("pdb", "PDB fields come from the wwPDB v3.3 columns; B -> U by 1/(8 pi^2); SCALE matrix rows; space-group tokens")
-    ctx.rule("block", "CIFopen: single block, or the non-'global' one of two")
+    ctx.rule("cif", "CIFread evaluated on model blocks: every field of every atom, cell, symbol, dispersion == what the core dictionary keys mean")
+    ctx.rule("esd", "remove_esd: the number in front of the parenthesised uncertainty, or the whole text")
+    ctx.rule("pdb", "PDBread evaluated on records laid out by the wwPDB column table: cell, symbol, SCALE matrix, atoms (B -> U)")
+    ctx.rule("block", "CIFopen: the only block, the non-'global' one of two, the named one; otherwise an exception")
     mod = core.module("xfab/structure.py")
     ctx.saw(mod)
-    cls = "build_atomlist"
-    fn = mod.method(cls, "CIFread")
-    ctx.saw(mod, "build_atomlist.CIFread")
-    where = core.loc(mod, fn)
-    body = core.body_wo_doc(fn)
-    # the block-selection preamble only rebinds `cifblk`; it is matched by shape and skipped by the data-flow
-    pre = [st for st in body if isinstance(st, ast.If) and
-           {t.id for n_ in ast.walk(st) if isinstance(n_, ast.Assign) for t in n_.targets if isinstance(t, ast.Name)} == {"cifblk"}]
-    ptxt0 = core.unparse(pre[0]).replace(" ", "") if len(pre) == 1 else ""
-    okpre = ("ifciffile!=None:" in ptxt0 and "cifblk=self.CIFopen(ciffile=ciffile,cifblkname=cifblkname)" in ptxt0
-             and "elifcifblk==None:" in ptxt0 and "cifblk=self.cifblk" in ptxt0)
-    ctx.check(okpre, "C17:block:CIFread-source",
-              "the block read is not CIFopen(ciffile, cifblkname) when a file is given, else the block passed / opened before", where)
-    body = [st for st in body if st not in pre]
+    cls = mod.klass("build_atomlist")
+    for m_ in ("CIFread", "CIFopen", "PDBread", "remove_esd"):
+        mod.method("build_atomlist", m_)
+        ctx.saw(mod, "build_atomlist." + m_)
+    where = core.loc(mod, mod.method("build_atomlist", "CIFread"))
+    # ---- remove_esd
+    rwhere = core.loc(mod, mod.method("build_atomlist", "remove_esd"))
+    r = Reader(mod, [])
+    got1 = r.outcome("remove_esd", txt("q", "12"))
+    got2 = r.outcome("remove_esd", txt("q"))
+    got3 = r.outcome("remove_esd", "1.25(3)")
+    ctx.check(got1 == ("ok", got1[1]) and same(got1[1], val("q")) and got2[0] == "ok" and same(got2[1], val("q"))
+              and got3[0] == "ok" and same(got3[1], Rat.const(Fraction(5, 4))), "C17:esd:remove_esd",
+              "remove_esd is not float(a) / float(a[:a.find('(')]): 'q(12)' -> %s, 'q' -> %s, '1.25(3)' -> %s"
+              % (okey(got1[1]), okey(got2[1]), okey(got3[1])), rwhere)
+    # ---- CIFread over ADP types x multiplicity keys
     nsc = 0
-    for adp_type in (None, "Biso", "Bani", "Uiso", "Uani"):
+    for t0 in (None, "Biso", "Bani", "Uiso", "Uani"):
         for multi in ("new", "old", "none"):
             nsc += 1
-            pv = Prov(mod, {"adp_type": adp_type, "multi": multi})
-            env = {}
-            pv.block(body, env)
-            tag = "%s/%s" % (adp_type, multi)
-            adds = [c for c in pv.calls if c[0] == "self.atomlist.add_atom"]
-            if len(adds) != 1:
-                raise AnalysisError("CIFread: expected one add_atom call, found %d" % len(adds))
-            kw = adds[0][1]
-            exp = {
-                "label": cif("_atom_site_label"),
-                "atomtype": "upper(%s)" % cif("_atom_site_type_symbol"),
-                "pos": "[esd(%s), esd(%s), esd(%s)]" % (cif("_atom_site_fract_x"), cif("_atom_site_fract_y"), cif("_atom_site_fract_z")),
-                "occ": "try(esd(%s) | 1.0)" % cif("_atom_site_occupancy"),
-            }
-            pos3 = "[esd(%s), esd(%s), esd(%s)]" % (cif("_atom_site_fract_x"), cif("_atom_site_fract_y"), cif("_atom_site_fract_z"))
-            exp["symmulti"] = {"new": "esd(%s)" % cif("_atom_site_symmetry_multiplicity"),
-                               "old": "esd(%s)" % cif("_atom_site_symetry_multiplicity"),
-                               "none": "multiplicity(%s, self.atomlist.sgname)" % pos3}[multi]
-            k = "index(cifblk['_atom_site_aniso_label'], %s)" % cif("_atom_site_label")
-            if adp_type is None:
-                exp["adp"], exp["adp_type"] = "0.0", None
-            elif adp_type == "Biso":
-                exp["adp"], exp["adp_type"] = "B2U(esd(%s))" % cif("_atom_site_B_iso_or_equiv"), "'Uiso'"
-            elif adp_type == "Uiso":
-                exp["adp"], exp["adp_type"] = "esd(%s)" % cif("_atom_site_U_iso_or_equiv"), None
-            elif adp_type == "Bani":
-                exp["adp"] = "[" + ", ".join("B2U(esd(%s))" % cif("_atom_site_aniso_B_%s" % o, k) for o in ANISO_ORDER) + "]"
-                exp["adp_type"] = "'Uani'"
-            else:
-                exp["adp"] = "[" + ", ".join("esd(%s)" % cif("_atom_site_aniso_U_%s" % o, k) for o in ANISO_ORDER) + "]"
-                exp["adp_type"] = None
-            for field, want in exp.items():
-                got = kw.get(field)
-                if field == "adp_type":
-                    # unchanged type: whatever was read (a try around the key); converted type: the literal
-                    ok = (got == want) if want is not None else (got is not None and "_atom_site_adp_type" in got)
-                    if adp_type is None:
-                        ok = got is not None and "_atom_site_adp_type" in got and "None" in got
-                else:
-                    ok = got == want
-                ctx.check(ok, "C17:cif:%s:%s" % (tag, field),
-                          "add_atom(%s=...) receives %s ; the file's value is %s" % (field, got, want if want is not None else "the adp type read"),
-                          where, sample={"scenario": tag, "field": field, "provenance": got} if (tag, field) in (("Bani/none", "adp"), ("Uiso/new", "symmulti")) else None)
-            if adp_type is None and multi == "new":
-                # cell, space group, dispersion: independent of the scenario
-                cell = dict(pv.stores).get("self.atomlist.cell")
-                want = "[" + ", ".join("esd(cifblk['%s'])" % k_ for k_ in CELL_KEYS) + "]"
-                ctx.check(cell == want, "C17:cif:cell", "cell is %s" % cell, where)
-                sgv = dict(pv.stores).get("self.atomlist.sgname")
-                ctx.check(sgv in ("sub('\\\\s+', '', cifblk['_symmetry_space_group_name_H-M'])",), "C17:cif:sgname",
-                          "space-group symbol is %s, not the H-M symbol with white space removed" % sgv, where)
-                disp = [(t, v) for t, v in pv.stores if "dispersion" in t]
-                t_sym = "upper(%s)" % cif("_atom_type_symbol")
-                s_sym = "upper(%s)" % cif("_atom_site_type_symbol")
-                want_present = "try([esd(%s), esd(%s)] | None)" % (cif("_atom_type_scat_dispersion_real"), cif("_atom_type_scat_dispersion_imag"))
-                okp = any(t.endswith("self.atomlist.dispersion[%s]" % t_sym) and t.startswith("if[") and v == want_present for t, v in disp)
-                oka = any(t.endswith("self.atomlist.dispersion[%s]" % s_sym) and t.startswith("else[") and v == "None" for t, v in disp)
+            t1 = {"Uani": "Biso", "Bani": "Uiso"}.get(t0, "Uani")          # the second site has another type
+            mlog = []
+            r = Reader(mod, mlog)
+            types = [t0 if t0 is not None else Ellipsis, t1]
+            blk = cif_block(types, multi)
+            if t0 is None:
+                del blk["_atom_site_adp_type"]          # no ADP type column at all: every site has type None
+                t1 = None
+            tag = "%s/%s" % (t0, multi)
+            kind, exc = r.outcome("CIFread", cifblk=blk)
+            if kind != "ok":
+                ctx.fail("C17:cif:%s:reads" % tag, "CIFread raises %s on a well-formed block" % exc, where)
+                continue
+            atoms = r.atomlist.attrs.get("atom")
+            if not isinstance(atoms, list) or len(atoms) != 2 or not all(isinstance(a, Obj) for a in atoms):
+                ctx.fail("C17:cif:%s:count" % tag, "two sites in the block, %s atoms in the list" % (len(atoms) if isinstance(atoms, list) else atoms), where)
+                continue
+            for k, (a, tk) in enumerate(zip(atoms, (t0, t1))):
+                A = a.attrs
+                pos3 = [val("x%d" % k), val("y%d" % k), val("z%d" % k)]
+                adp, adp_type = expected_adp(tk, k)
+                exp = {"label": ["Fe1", "O2"][k], "atomtype": ["FE", "O"][k], "pos": pos3, "occ": val("occ%d" % k), "adp": adp, "adp_type": adp_type}
+                if multi in ("new", "old"):
+                    exp["symmulti"] = val("m%d" % k)
+                for field, want in exp.items():
+                    got = A.get(field)
+                    ctx.check(same(got, want), "C17:cif:%s:%s" % (tag, field) if k == 0 else "C17:cif:%s:%s:site2(%s)" % (tag, field, tk),
+                              "site %d: add_atom(%s=...) receives %s ; the file's value is %s" % (k, field, okey(got), okey(want)), where,
+                              sample={"scenario": tag, "field": field, "value": okey(got)} if (tag, field, k) in (("Bani/none", "adp", 0), ("Uiso/new", "symmulti", 0)) else None)
+            if multi == "none":
+                okm = len(mlog) == 2 and all(len(a_) >= 2 and same(a_[0], [val("x%d" % k), val("y%d" % k), val("z%d" % k)]) and a_[1] == "P21/c"
+                                             for k, (a_, _kw) in enumerate(mlog)) \
+                    and all(same(atoms[k].attrs.get("symmulti"), Rat.atom("mult#%d" % (k + 1))) for k in range(2))
+                ctx.check(okm, "C17:cif:%s:symmulti" % tag,
+                          "without a multiplicity column symmulti is not multiplicity([x, y, z], <space group symbol>) of the site", where)
+            if t0 is None and multi == "new":
+                al = r.atomlist.attrs
+                ctx.check(same(al.get("cell"), [val(a_) for a_ in ("ca", "cb", "cc", "cal", "cbe", "cga")]), "C17:cif:cell",
+                          "cell is %s" % okey(al.get("cell")), where)
+                ctx.check(al.get("sgname") == "P21/c", "C17:cif:sgname",
+                          "space-group symbol is %s, not the H-M symbol with white space removed" % okey(al.get("sgname")), where)
+                disp = al.get("dispersion")
+                okp = isinstance(disp, dict) and set(disp) == {"O", "FE"} and same(disp["O"], [val("fpO"), val("fppO")]) \
+                    and same(disp["FE"], [val("fpFe"), val("fppFe")])
                 ctx.check(okp, "C17:cif:dispersion-loop",
-                          "dispersion of an atom type is not [esd(real), esd(imag)] of the atom-type loop (None when unreadable): %s" % disp[:1], where)
-                ctx.check(oka, "C17:cif:dispersion-absent",
-                          "without an atom-type loop the dispersion entries are not None per site type", where)
+                          "dispersion of an atom type is not [esd(real), esd(imag)] of the atom-type loop: %s" % okey(disp), where)
     ctx.extra["cif_scenarios"] = nsc
+    # no atom-type loop / unreadable dispersion / no occupancy column
+    r = Reader(mod, [])
+    blk = cif_block(["Uiso", "Uiso"], "new", with_type_loop=False, with_occ=False)
+    kind, exc = r.outcome("CIFread", cifblk=blk)
+    disp = r.atomlist.attrs.get("dispersion") if kind == "ok" else None
+    ctx.check(kind == "ok" and isinstance(disp, dict) and set(disp) == {"O", "FE"} and all(v is None for v in disp.values()),
+              "C17:cif:dispersion-absent", "without an atom-type loop the dispersion entries are not None per site type: %s" % okey(disp), where)
+    atoms = r.atomlist.attrs.get("atom") if kind == "ok" else []
+    ctx.check(kind == "ok" and len(atoms) == 2 and all(same(a.attrs.get("occ"), Rat.const(1)) for a in atoms), "C17:cif:occupancy-default",
+              "without an occupancy column the occupancy is not 1.0", where)
+    r = Reader(mod, [])
+    blk = cif_block(["Uiso", "Uiso"], "new")
+    blk["_atom_type_scat_dispersion_real"] = [txt("fpO", "1")]          # too short: the second type cannot be read
+    kind, exc = r.outcome("CIFread", cifblk=blk)
+    disp = r.atomlist.attrs.get("dispersion") if kind == "ok" else None
+    ctx.check(kind == "ok" and isinstance(disp, dict) and disp.get("FE") is None and same(disp.get("O"), [val("fpO"), val("fppO")]),
+              "C17:cif:dispersion-unreadable", "an unreadable dispersion entry is not stored as None: %s (%s)" % (okey(disp), (kind, exc)), where)
+    # ---- which block is read
+    owhere = core.loc(mod, mod.method("build_atomlist", "CIFopen"))
+    b1, b2 = {"_marker": "one"}, {"_marker": "two"}
+    cases = [("single", {"only": b1}, None, ("ok", b1)), ("global-first", {"global": b2, "data": b1}, None, ("ok", b1)),
+             ("global-second", {"data": b1, "global": b2}, None, ("ok", b1)), ("named", {"a": b2, "b": b1, "c": b2}, "b", ("ok", b1)),
+             ("ambiguous", {"a": b1, "b": b2}, None, ("raise", None)), ("three", {"a": b1, "b": b2, "global": b2}, None, ("raise", None)),
+             ("missing-name", {"a": b1}, "zz", ("raise", None))]
+    badb = []
+    for label, cf, name, want in cases:
+        r = Reader(mod, [])
+        r.cif_files["f.cif"] = cf
+        kind, got = r.outcome("CIFopen", ciffile="f.cif", cifblkname=name)
+        ok = (kind == "ok" and got is want[1] and r.obj.attrs.get("cifblk") is want[1]) if want[0] == "ok" else kind == "raise"
+        if not ok:
+            badb.append((label, kind, okey(got) if kind == "ok" else got))
+    ctx.check(not badb, "C17:block:CIFopen", "block choice is not: the only block, or the non-'global' one of two, or the named one "
+              "(exception otherwise): %s" % badb[:3], owhere, sample={"cases": [c[0] for c in cases]})
+    # CIFread(ciffile=...) reads the block CIFopen chooses; CIFread() the block opened before
+    r = Reader(mod, [])
+    full = cif_block(["Uiso", "Uiso"], "new")
+    r.cif_files["f.cif"] = {"global": {"_marker": "g"}, "data": full}
+    kind, exc = r.outcome("CIFread", ciffile="f.cif")
+    ok1 = kind == "ok" and len(r.atomlist.attrs.get("atom", [])) == 2
+    r2 = Reader(mod, [])
+    r2.cif_files["f.cif"] = {"data": full}
+    k2 = r2.outcome("CIFopen", ciffile="f.cif")
+    k3 = r2.outcome("CIFread")
+    ok2 = k2[0] == "ok" and k3[0] == "ok" and len(r2.atomlist.attrs.get("atom", [])) == 2
+    ctx.check(ok1 and ok2, "C17:block:CIFread-source",
+              "the block read is not CIFopen(ciffile, cifblkname) when a file is given, else the block passed / opened before (%s, %s, %s)"
+              % ((kind, exc), k2[0], k3), where)
+    # ---- PDB
+    pwhere = core.loc(mod, mod.method("build_atomlist", "PDBread"))
+    mlog = []
+    r = Reader(mod, mlog)
+    r.fs.files["m.pdb"] = pdb_lines()
+    kind, exc = r.outcome("PDBread", "m.pdb")
+    if kind != "ok":
+        ctx.fail("C17:pdb:reads", "PDBread raises %s on well-formed records" % exc, pwhere)
+    else:
+        al = r.atomlist.attrs
+        cell = al.get("cell")
+        for k, nm in enumerate(("a", "b", "c", "alp", "bet", "gam")):
+            want = val(("pa", "pb", "pc", "pal", "pbe", "pga")[k])
+            got = cell[k] if isinstance(cell, (list, tuple)) and len(cell) == 6 else (cell.data[k] if isinstance(cell, Arr) and cell.shape == (6,) else None)
+            ctx.check(got is not None and same(got, want), "C17:pdb:CRYST1:%s" % nm,
+                      "CRYST1 field %s is read as %s (columns of the wwPDB table give %s)" % (nm, okey(got), okey(want)), pwhere)
+        ctx.check(al.get("sgname") == "p21/c", "C17:pdb:spacegroup",
+                  "space-group tokens equal to '1' are not dropped / the rest not lower-cased and joined: %s from 'P 1 21/c 1'" % okey(al.get("sgname")), pwhere)
+        atoms = al.get("atom")
+        ctx.check(isinstance(atoms, list) and len(atoms) == 2, "C17:pdb:record-tags",
+                  "records are not selected by ATOM|HETATM at the start of the line: %s atoms from one ATOM, one HETATM and a REMARK mentioning ATOM"
+                  % (len(atoms) if isinstance(atoms, list) else atoms), pwhere)
+        if isinstance(atoms, list) and len(atoms) == 2:
+            for k, a in enumerate(atoms):
+                A = a.attrs
+                xyz1 = [val("X%d" % k), val("Y%d" % k), val("Z%d" % k), Rat.const(1)]
+                pos = [sum((val("s%d%d" % (r_, c)) * xyz1[c] for c in range(3)), Rat.const(0)) + val("u%d" % r_) for r_ in range(3)]
+                exp = {"label": ["CA", "FE"][k], "atomtype": ["C", "FE"][k], "pos": pos, "adp": val("BF%d" % k) / EIGHT_PI2,
+                       "adp_type": "Uiso", "occ": val("OCC%d" % k), "symmulti": Rat.atom("mult#%d" % (k + 1))}
+                for field, want in exp.items():
+                    got = A.get(field)
+                    key = "C17:pdb:ATOM:%s" % field if k == 0 else "C17:pdb:HETATM:%s" % field
+                    if field == "pos" and not same(got, want):
+                        # which half is wrong: the SCALE matrix or the coordinates?
+                        G = got if isinstance(got, Arr) else materialise(got) if isinstance(got, (list, tuple, Opaque)) else None
+                        coords_ok = G is not None and G.shape == (3,) and all(set(scalar(x).atoms()) & {"X%d" % k, "Y%d" % k, "Z%d" % k} for x in G.data)
+                        ctx.fail("C17:pdb:SCALE" if coords_ok and k == 0 else key,
+                                 "fractional position is %s ; SCALEn rows applied to (x, y, z, 1) give %s" % (okey(got), okey(want)), pwhere)
+                        continue
+                    ctx.check(same(got, want), key, "add_atom(%s=...) receives %s ; specification: %s" % (field, okey(got), okey(want)), pwhere,
+                              sample={"field": field, "value": okey(got)} if field in ("pos", "adp") and k == 0 else None)
+            ctx.ok("C17:pdb:SCALE") if all(same(a.attrs.get("pos"), [sum((val("s%d%d" % (r_, c)) * [val("X%d" % k), val("Y%d" % k), val("Z%d" % k)][c]
+                                                                       for c in range(3)), Rat.const(0)) + val("u%d" % r_) for r_ in range(3)])
+                                         for k, a in enumerate(atoms)) else None
+            okm = len(mlog) == 2 and all(len(a_) >= 2 and same(a_[0], atoms[k].attrs.get("pos")) and a_[1] == al.get("sgname") for k, (a_, _kw) in enumerate(mlog))
+            ctx.check(okm, "C17:pdb:symmulti", "symmulti is not multiplicity(fractional position, space group symbol)", pwhere)
+        disp = al.get("dispersion")
+        ctx.check(isinstance(disp, dict) and set(disp) == {"C", "FE"} and all(v is None for v in disp.values()), "C17:pdb:dispersion",
+                  "PDB atoms do not get dispersion None: %s" % okey(disp), pwhere)
     # anisotropic order agrees with Uij2betaij's layout (reader/writer): [11,22,33,23,13,12] <-> U[[0,5,4],[5,1,3],[4,3,2]]
     ufn = mod.func("Uij2betaij")
-    utxt = core.unparse(ufn).replace(" ", "")
-    a = list(mod.np_alias)[0]
-    ctx.check("U=%s.array([[adp[0],adp[5],adp[4]],[adp[5],adp[1],adp[3]],[adp[4],adp[3],adp[2]]])" % a in utxt, "C17:cif:aniso-order-consumer",
+    from xfabsa.symeval import Evaluator
+    adp = sym_array("adp", (6,))
+
+    def ipol(name, args, kwargs, node):
+        if name.endswith(".cell_invert"):
+            return Opaque("cellstar", (6,))
+        return NotImplemented
+    beta = Evaluator(mod, inline=True, import_policy=ipol).call_function("Uij2betaij", [adp, sym_array("ucell", (6,))])
+    Bm = beta if isinstance(beta, Arr) else materialise(beta)
+    idx = [[0, 5, 4], [5, 1, 3], [4, 3, 2]]
+    oku = Bm is not None and Bm.shape == (3, 3) and all(
+        scalar(Bm.data[i][j]).equals(2 * N.PI * N.PI * Rat.atom("cellstar[%d]" % i) * Rat.atom("cellstar[%d]" % j) * Rat.atom("adp[%d]" % idx[i][j]))
+        for i in range(3) for j in range(3))
+    ctx.check(oku, "C17:cif:aniso-order-consumer",
               "Uij2betaij does not read the anisotropic list in the order 11,22,33,23,13,12", core.loc(mod, ufn))
-    # remove_esd
-    rfn = mod.method(cls, "remove_esd")
-    rtxt = core.unparse(ast.Module(body=core.body_wo_doc(rfn), type_ignores=[])).replace(" ", "").replace('"', "'")
-    arg = rfn.args.args[1].arg
-    want = "if{a}.find('(')==-1:\nvalue=float({a})\nelse:\nvalue=float({a}[:{a}.find('(')])\nreturnvalue".format(a=arg)
-    ctx.check(rtxt.replace("    ", "") == want, "C17:esd:remove_esd",
-              "remove_esd is not float(a) / float(a[:a.find('(')])", core.loc(mod, rfn))
-    # ---- PDB
-    pfn = mod.method(cls, "PDBread")
-    ctx.saw(mod, "build_atomlist.PDBread")
-    pwhere = core.loc(mod, pfn)
-    pv = Prov(mod, {"adp_type": "<n/a>", "multi": "none"}, opaque_names=("text", "scalemat"))
-    env = {}
-    pv.block(core.body_wo_doc(pfn), env)
-    line = "text[i]"
-    for name, cols in PDB_CRYST1.items():
-        got = env.get(name)
-        want = "float(%s[%s])" % (line, sl(cols)) if name != "sg" else None
-        if name == "sg":
-            # sg is later rebuilt from tokens; its first binding is the column slice: look at the raw assignment
-            raw = [core.unparse(n_.value).replace(" ", "") for n_ in ast.walk(pfn) if isinstance(n_, ast.Assign)
-                   and isinstance(n_.targets[0], ast.Name) and n_.targets[0].id == "sg" and isinstance(n_.value, ast.Subscript)]
-            ok = raw == ["text[i][%s]" % sl(cols)]
-            got = raw
-        else:
-            ok = got is not None and want in got and got.count("float(") == 1
-        ctx.check(ok, "C17:pdb:CRYST1:%s" % name, "CRYST1 field %s is read from %s, columns %d-%d are [%s]" % (name, got, cols[0], cols[1], sl(cols)), pwhere)
-    adds = [c for c in pv.calls if c[0] == "self.atomlist.add_atom"]
-    if len(adds) != 1:
-        raise AnalysisError("PDBread: expected one add_atom call")
-    kw = adds[0][1]
-    x, y, z = ["float(%s[%s])" % (line, sl(PDB_ATOM[c])) for c in "xyz"]
-    exp = {
-        "label": "sub('\\\\s+', '', %s[%s])" % (line, sl(PDB_ATOM["label"])),
-        "atomtype": "upper(sub('\\\\s+', '', %s[%s]))" % (line, sl(PDB_ATOM["atomtype"])),
-        "pos": "%s.dot(scalemat, [%s, %s, %s, 1])" % (a, x, y, z),
-        "adp": "B2U(float(%s[%s]))" % (line, sl(PDB_ATOM["adp"])),
-        "adp_type": "'Uiso'",
-        "occ": "float(%s[%s])" % (line, sl(PDB_ATOM["occ"])),
-    }
-    exp["symmulti"] = "multiplicity(%s, self.atomlist.sgname)" % exp["pos"]
-    for field, want in exp.items():
-        got = kw.get(field)
-        ok = got is not None and (got == want or got.endswith(want))
-        ctx.check(ok, "C17:pdb:ATOM:%s" % field, "add_atom(%s=...) receives %s ; specification: %s" % (field, got, want), pwhere,
-                  sample={"field": field, "provenance": got} if field in ("pos", "adp") else None)
-    ptxt = core.unparse(pfn).replace(" ", "").replace('"', "'")
-    ctx.check("iftext[i].find('ATOM')==0ortext[i].find('HETATM')==0:" in ptxt and "iftext[i].find('CRYST1')==0:" in ptxt
-              and "iftext[i].find('SCALE')==0:" in ptxt, "C17:pdb:record-tags",
-              "records are not selected by CRYST1 / SCALE / ATOM|HETATM at the start of the line", pwhere)
-    ok_scale = ("scale=text[i].split()" in ptxt and "scaleline=int(scale[0][-1])-1" in ptxt
-                and "forjinrange(1,len(scale)):" in ptxt and "scalemat[scaleline,j-1]=float(scale[j])" in ptxt
-                and "scalemat=%s.zeros((3,4))" % a in ptxt)
-    ctx.check(ok_scale, "C17:pdb:SCALE", "SCALEn rows are not stored as scalemat[n-1, j-1] = float(token j)", pwhere)
-    ok_sg = ("sgtmp=sg.split()" in ptxt and "ifsgtmp[i]!='1':" in ptxt and "sg=sg+sgtmp[i].lower()" in ptxt
-             and "self.atomlist.sgname=sg" in ptxt)
-    ctx.check(ok_sg, "C17:pdb:spacegroup", "space-group tokens equal to '1' are not dropped / the rest not lower-cased and joined", pwhere)
-    cellst = dict(pv.stores).get("self.atomlist.cell")
-    ctx.check(cellst is not None and cellst.count("float(") == 6 and all(("[%s]" % sl(PDB_CRYST1[k_])) in cellst for k_ in ("a", "b", "c", "alp", "bet", "gam")),
-              "C17:pdb:cell", "cell is %s" % cellst, pwhere)
-    disp = [v for t, v in pv.stores if "dispersion" in t]
-    ctx.check(disp == ["None"], "C17:pdb:dispersion", "PDB atoms do not get dispersion None", pwhere)
-    # ---- CIFopen block choice
-    ofn = mod.method(cls, "CIFopen")
-    otxt = core.unparse(ofn).replace(" ", "").replace('"', "'")
-    okb = ("iflen(blocks)>1:" in otxt and "iflen(blocks)==2and'global'inblocks:" in otxt
-           and "cifblkname=blocks[abs(blocks.index('global')-1)]" in otxt and "cifblkname=blocks[0]" in otxt
-           and "self.cifblk=cf[cifblkname]" in otxt)
-    ctx.check(okb, "C17:block:CIFopen", "block choice is not: the only block, or the non-'global' one of two", core.loc(mod, ofn))
     ctx.not_decided += ["PyCifRW's parsing and Python's float(); that real files are well formed",
                         "site multiplicity values themselves (C15)"]
-    ctx.assumptions += ["IUCr core CIF dictionary key names; wwPDB format v3.3 column table"]
-    return ("Provenance data-flow over CIFread for %d configurations (5 ADP types x 3 multiplicity-key cases): every keyword of "
-            "add_atom, the cell, the symbol and the dispersion table traced to the prescribed CIF keys through remove_esd, upper, "
-            "B->U and the anisotropic label index in the order 11,22,33,23,13,12; PDBread's fields traced to the wwPDB columns, "
-            "SCALE rows and space-group tokens; remove_esd and CIFopen by shape." % nsc)
+    ctx.assumptions += ["IUCr core CIF dictionary key names; wwPDB format v3.3 column table",
+                        "a number's text contains no parenthesis, blank or letter; float(text of x) == x"]
+    return ("CIFread evaluated by E7 on two-site model blocks for %d configurations (5 ADP types x 3 multiplicity-key cases, the second "
+            "site of another type, the anisotropic loop in reverse order): every attribute of every atom, the cell, the symbol and the "
+            "dispersion table compared with the meaning of the CIF keys; remove_esd on symbolic and literal text; CIFopen on seven "
+            "block layouts; PDBread on records laid out by the wwPDB column table with symbolic fixed-width fields." % nsc)
